@@ -2,7 +2,12 @@
 
 package op
 
-import "github.com/berquerant/crd/note"
+import (
+	"fmt"
+
+	"github.com/berquerant/crd/note"
+	"gopkg.in/yaml.v3"
+)
 
 // Ghost lemma functions for govc: never called, compiled only with -tags verif.
 // Each is verified against its contract in verif_contracts.go using only the
@@ -98,4 +103,29 @@ func lemmaC14Chain(c CircleOfFifth, cc []KeyConversion, key Key, picks []Key) (m
 		}
 	}
 	return m, true
+}
+
+// printed: what yaml writes for the value a MarshalYAML method returns - a string as it is, an integer in decimal
+// (quoting, where yaml adds it, is undone by its own decoder: assumed).
+func printed(v any, _ error) string { return fmt.Sprint(v) }
+
+// lemmaC10Key: the printed form of every key made of a letter, an optional accidental and a mode reads back as that key.
+func lemmaC10Key(k Key) (Key, error) {
+	var out Key
+	err := out.UnmarshalYAML(&yaml.Node{Kind: yaml.ScalarNode, Value: printed(k.MarshalYAML())})
+	return out, err
+}
+
+// lemmaC10Dynamic: every dynamic sign reads back from its printed form.
+func lemmaC10Dynamic(d DynamicSign) (DynamicSign, error) {
+	var out DynamicSign
+	err := out.UnmarshalYAML(&yaml.Node{Kind: yaml.ScalarNode, Value: printed(d.MarshalYAML())})
+	return out, err
+}
+
+// lemmaC10BPM: every tempo reads back from its printed form (and tempo 0 is refused).
+func lemmaC10BPM(b BPM) (BPM, error) {
+	var out BPM
+	err := out.UnmarshalYAML(&yaml.Node{Kind: yaml.ScalarNode, Value: printed(b.MarshalYAML())})
+	return out, err
 }
